@@ -331,12 +331,26 @@ func checkC03(v *tunView, m *connModel) {
 			e.Violate("C03", "retransmission-differs", "retransmission of id=%d differs from the first transmission: first %x, now %x", id, q.raw, x.F.Raw)
 		}
 		q.at = append(q.at, x.At)
-		// one in flight
+		// one in flight: an earlier request is still unacknowledged at this instant if its Send has
+		// not returned, no acknowledgement for it (OK or error) has been read yet, and its response
+		// timeout has not elapsed. (The Send's return itself may lag: it releases the sender lock,
+		// and the next sender may transmit, before it gets to return.)
+		ackedBy := func(o *reqTx, at Stamp) bool {
+			for _, y := range v.rx {
+				if y.At.Seq >= at.Seq {
+					break
+				}
+				if y.F.OK && y.F.Svc == svcTunnelRes && y.F.Channel == o.ch && y.F.Seq == o.seq {
+					return true
+				}
+			}
+			return false
+		}
 		for _, o := range order {
 			if o == q {
 				continue
 			}
-			if o.at[0].Seq < x.At.Seq && (!o.call.Done || o.call.Ret.Seq > x.At.Seq) {
+			if o.at[0].Seq < x.At.Seq && (!o.call.Done || o.call.Ret.T > x.At.T) && !ackedBy(o, x.At) && x.At.T < o.at[0].T+c.T-eps {
 				e.Violate("C03", "two-in-flight", "request id=%d (seq %d) transmitted at %v while id=%d (seq %d, first sent %v) was still unacknowledged and its Send had not returned",
 					id, x.F.Seq, x.At.T, o.call.ID, o.seq, o.at[0].T)
 			}
